@@ -10,12 +10,12 @@ A check module (checks/cNN_*.py) provides
 
 Cases are plain JSON values so that a failure replays without Hypothesis.
 """
-import os, sys, json, hashlib, time, traceback, signal, collections, multiprocessing, glob
+import os, sys, json, hashlib, time, traceback, collections, multiprocessing, glob
 
 VERIF = os.path.dirname(os.path.dirname(os.path.abspath(__file__)))
 REPO = os.environ.get('LARK_REPO', '/repo')
 NPROC = int(os.environ.get('VERIF_NPROC', '16'))
-CASE_LIMIT_S = float(os.environ.get('VERIF_CASE_LIMIT', '20'))
+CASE_LIMIT_S = float(os.environ.get('VERIF_CASE_LIMIT', '30'))
 SHRINK_BUDGET_S = float(os.environ.get('VERIF_SHRINK_BUDGET', '45'))
 
 
@@ -24,10 +24,6 @@ class Violation(Exception):
         Exception.__init__(self, what)
         self.what = what
         self.detail = detail
-
-
-class CaseTimeout(BaseException):
-    pass
 
 
 class Phase(object):
@@ -108,17 +104,16 @@ def load_findings(prop):
     return out
 
 
-def _alarm(signum, frame):
-    raise CaseTimeout()
+_armed = [False]
 
 
-def _call_with_limit(fn, case, ctx, limit):
-    signal.signal(signal.SIGALRM, _alarm)
-    signal.setitimer(signal.ITIMER_REAL, limit, 0.5)     # repeating: an alarm that lands inside a GC callback is swallowed
-    try:
-        return fn(case, ctx)
-    finally:
-        signal.setitimer(signal.ITIMER_REAL, 0)
+# ---------------------------------------------------------------------------------------------------
+# Hang handling without asynchronous exceptions: every shard runs in its own process with a watchdog
+# *thread*; when one case exceeds the limit the thread reports the case to the parent and the process
+# exits.  The parent re-runs that case alone in a fresh process with three times the limit; only if it
+# does not finish there either is it a hang (a violation for properties that promise termination,
+# otherwise the run is inconclusive).
+_current = {'case': None, 't0': None, 'fn': None}
 
 
 def run_case(case, ctx, fn=None, in_hypothesis=False):
@@ -136,19 +131,9 @@ def run_case(case, ctx, fn=None, in_hypothesis=False):
         if time.time() - ctx.first_failure_time > SHRINK_BUDGET_S:
             return          # shrink budget used up: let the shrinker converge on what it has
     ctx.evaluations += 1
+    _current['case'] = case; _current['fn'] = getattr(fn, '__name__', 'check'); _current['t0'] = time.time()
     try:
-        try:
-            _call_with_limit(fn, case, ctx, CASE_LIMIT_S)
-        except CaseTimeout:
-            try:
-                _call_with_limit(fn, case, ctx, 3 * CASE_LIMIT_S)
-                ctx.label('slow-case-retried-ok')
-            except CaseTimeout:
-                if getattr(module, 'HANG_IS_VIOLATION', False):
-                    raise Violation('hang', limit_s=3 * CASE_LIMIT_S)
-                ctx.inconclusive.append({'case': case, 'why': 'case exceeded %ss twice' % (3 * CASE_LIMIT_S)})
-                ctx.aborted = True
-                return
+        fn(case, ctx)
     except Violation as v:
         known = getattr(module, 'KNOWN', {})
         for fid in ctx.findings:
@@ -169,76 +154,186 @@ def run_case(case, ctx, fn=None, in_hypothesis=False):
         ctx.harness_errors.append({'case': case, 'traceback': traceback.format_exc()})
         ctx.aborted = True
         return
+    finally:
+        _current['t0'] = None
 
 
-def _run_shard(args):
-    modname, tier, seed, phase_index, shard, nshards = args
+def _watchdog(conn, limit):
+    import threading
+    def loop():
+        while True:
+            time.sleep(0.25)
+            t0 = _current['t0']
+            if t0 is not None and time.time() - t0 > limit:
+                try:
+                    conn.send({'hang': _current['case'], 'fn': _current['fn'], 'limit': limit})
+                except Exception:
+                    pass
+                os._exit(3)
+    th = threading.Thread(target=loop, daemon=True)
+    th.start()
+
+
+def _shard_main(conn, args):
     try:
-        return _run_shard_inner(modname, tier, seed, phase_index, shard, nshards)
+        _watchdog(conn, CASE_LIMIT_S)
+        res = _run_shard_inner(*args)
     except BaseException:
-        return {'fatal': traceback.format_exc(), 'shard': shard}
+        res = {'fatal': traceback.format_exc(), 'shard': args[-2]}
+    try:
+        conn.send(res)
+    except Exception:
+        pass
+    conn.close()
+    os._exit(0)
+
+
+def _confirm_main(conn, modname, fnname, case):
+    import importlib
+    module = importlib.import_module(modname)
+    ctx = Ctx(module, 'quick', 0, {})
+    try:
+        getattr(module, fnname)(case, ctx)
+        conn.send('finished')
+    except Violation as v:
+        conn.send('finished')
+    except BaseException:
+        conn.send('error: ' + traceback.format_exc()[-800:])
+    os._exit(0)
+
+
+def confirm_hang(modname, fnname, case, limit):
+    """re-run one case alone in a fresh process; True if it still does not finish within limit"""
+    mp = multiprocessing.get_context('fork')
+    a, b = mp.Pipe(duplex=False)
+    p = mp.Process(target=_confirm_main, args=(b, modname, fnname, case))
+    p.start()
+    ok = a.poll(limit)
+    if not ok:
+        p.kill(); p.join()
+        return True
+    p.join(5)
+    if p.is_alive(): p.kill()
+    return False
+
+
+def run_shards(jobs):
+    """jobs: list of arg tuples for _run_shard_inner.  Returns list of results (dicts)."""
+    mp = multiprocessing.get_context('fork')
+    from multiprocessing.connection import wait
+    pending = list(jobs); running = {}; results = []
+    while pending or running:
+        while pending and len(running) < NPROC:
+            args = pending.pop(0)
+            a, b = mp.Pipe(duplex=False)
+            pr = mp.Process(target=_shard_main, args=(b, args))
+            pr.start(); b.close()
+            running[a] = (pr, args)
+        for conn in wait(list(running), timeout=1.0):
+            pr, args = running.pop(conn)
+            try:
+                msg = conn.recv()
+            except (EOFError, OSError):
+                msg = {'fatal': 'shard process %s exited without a result (killed / out of memory?)' % (args[-2],), 'shard': args[-2]}
+            conn.close()
+            pr.join(10)
+            if pr.is_alive(): pr.kill()
+            results.append(msg)
+    return results
 
 
 def _run_shard_inner(modname, tier, seed, phase_index, shard, nshards):
     import importlib
-    if os.environ.get('VERIF_FAULT'):
-        import faulthandler
-        faulthandler.dump_traceback_later(int(os.environ['VERIF_FAULT']), exit=True, file=open('/tmp/fault-%d.txt' % os.getpid(), 'w'))
     module = importlib.import_module(modname)
-    ctx = Ctx(module, tier, seed, load_findings(module.ID))
-    phase = module.phases(tier)[phase_index]
-    fn = phase.check or module.check
+    findings = load_findings(module.ID)
+    known_lines = []
     t0 = time.time()
-    if phase.kind == 'enumerate':
-        for case in phase.cases(shard, nshards):
+    if phase_index == -1:
+        # regression tier: probes of open known findings, then the saved replays
+        ctx = Ctx(module, tier, seed, findings)
+        ctx0 = Ctx(module, tier, seed, {})
+        for fid, e in sorted(findings.items()):
+            probe = e.get('probe')
+            if probe is None:
+                continue
+            fn = getattr(module, e.get('probe_check', 'check'))
             try:
-                run_case(case, ctx, fn)
+                run_case(probe, ctx0, fn)
+                known_lines.append('note: probe of open finding %s no longer fails' % fid)
             except Violation as v:
-                ctx.violations.append({'case': case, 'what': v.what, 'detail': v.detail})
-                if len(ctx.violations) >= 3:
-                    break
-            if ctx.aborted:
-                break
+                pred = getattr(module, 'KNOWN', {}).get(fid)
+                if pred is not None and pred(probe, v):
+                    known_lines.append('KNOWN-FINDING: property=%s %s [%s]' % (module.ID, e['what'], fid))
+                else:
+                    ctx.violations.append({'case': probe, 'what': 'probe of %s fails differently: %s' % (fid, v.what), 'detail': v.detail})
+        ctx.harness_errors += ctx0.harness_errors
+        nrep = 0
+        for path in sorted(glob.glob(os.path.join(VERIF, 'replays', module.ID, '*.json'))):
+            with open(path) as f:
+                rec = json.load(f)
+            fn = getattr(module, rec.get('phase_check') or 'check')
+            nrep += 1
+            try:
+                run_case(rec['case'], ctx, fn)
+            except Violation as v:
+                ctx.violations.append({'case': rec['case'], 'what': v.what, 'detail': v.detail, 'replay_of': path})
+        phase_name = 'regression'
+        extra = {'replays': nrep}
     else:
-        import hypothesis
-        from hypothesis import given, settings, HealthCheck, seed as hseed
-        n = max(1, phase.max_examples // nshards)
-        @hseed(derive_seed(seed, module.ID, phase.name, shard))
-        @settings(max_examples=n, database=None, deadline=None, derandomize=False,
-                  report_multiple_bugs=False, suppress_health_check=list(HealthCheck),
-                  print_blob=False)
-        @given(phase.strategy)
-        def prop(case):
-            run_case(case, ctx, fn, in_hypothesis=True)
-        try:
-            prop()
-        except Violation:
-            case, v = ctx.last_failure
-            ctx.violations.append({'case': case, 'what': v.what, 'detail': v.detail})
-        except Exception as e:
-            # Hypothesis-internal complaint (flaky, unsatisfiable ...): harness problem, not a violation
-            if type(e).__name__ == 'Unsatisfiable' or type(e).__name__ == 'FailedHealthCheck':
-                ctx.harness_errors.append({'case': None, 'traceback': traceback.format_exc()})
-            elif getattr(ctx, 'last_failure', None) is not None and type(e).__name__ in ('Flaky', 'FlakyFailure'):
+        ctx = Ctx(module, tier, seed, findings)
+        phase = module.phases(tier)[phase_index]
+        phase_name = phase.name; extra = {}
+        fn = phase.check or module.check
+        if phase.kind == 'enumerate':
+            for case in phase.cases(shard, nshards):
+                try:
+                    run_case(case, ctx, fn)
+                except Violation as v:
+                    ctx.violations.append({'case': case, 'what': v.what, 'detail': v.detail, 'phase_check': fn.__name__})
+                    if len(ctx.violations) >= 3:
+                        break
+                if ctx.aborted:
+                    break
+        else:
+            import hypothesis
+            from hypothesis import given, settings, HealthCheck, seed as hseed
+            n = max(1, phase.max_examples // nshards)
+            @hseed(derive_seed(seed, module.ID, phase.name, shard))
+            @settings(max_examples=n, database=None, deadline=None, derandomize=False,
+                      report_multiple_bugs=False, suppress_health_check=list(HealthCheck),
+                      print_blob=False)
+            @given(phase.strategy)
+            def prop(case):
+                run_case(case, ctx, fn, in_hypothesis=True)
+            try:
+                prop()
+            except Violation:
                 case, v = ctx.last_failure
-                ctx.violations.append({'case': case, 'what': v.what + ' [flaky under shrinking]', 'detail': v.detail})
-            else:
-                ctx.harness_errors.append({'case': None, 'traceback': traceback.format_exc()})
-    return {
-        'shard': shard, 'phase': phase.name, 'evaluations': ctx.evaluations,
+                ctx.violations.append({'case': case, 'what': v.what, 'detail': v.detail, 'phase_check': fn.__name__})
+            except Exception as e:
+                # Hypothesis-internal complaint (flaky, unsatisfiable ...): harness problem, not a violation
+                if getattr(ctx, 'last_failure', None) is not None and type(e).__name__ in ('Flaky', 'FlakyFailure'):
+                    case, v = ctx.last_failure
+                    ctx.violations.append({'case': case, 'what': v.what + ' [flaky under shrinking]', 'detail': v.detail})
+                else:
+                    ctx.harness_errors.append({'case': None, 'traceback': traceback.format_exc()})
+    out = {
+        'shard': shard, 'phase': phase_name, 'evaluations': ctx.evaluations,
         'labels': dict(ctx.labels), 'excluded': dict(ctx.excluded), 'discarded': dict(ctx.discarded),
         'nontriv': sorted(ctx.nontriv), 'samples': ctx.samples, 'violations': ctx.violations,
         'harness_errors': ctx.harness_errors[:3], 'inconclusive': ctx.inconclusive[:3],
-        'wall_s': time.time() - t0,
+        'wall_s': time.time() - t0, 'known_lines': known_lines,
     }
+    out.update(extra)
+    return out
 
 
-def write_replay(prop, case, what, detail, subdir='out'):
+def write_replay(prop, case, what, detail, subdir='out', phase_check=None):
     d = os.path.join(VERIF, subdir, prop)
     os.makedirs(d, exist_ok=True)
     path = os.path.join(d, 'violation-%s.json' % case_hash(case))
     with open(path, 'w') as f:
-        json.dump({'property': prop, 'what': what, 'detail': detail, 'case': case}, f, indent=1, sort_keys=True, default=repr)
+        json.dump({'property': prop, 'what': what, 'detail': detail, 'case': case, 'phase_check': phase_check}, f, indent=1, sort_keys=True, default=repr)
     return path
 
 
@@ -275,21 +370,38 @@ def main(module, argv=None):
     if ns.replay:
         with open(ns.replay) as f:
             rec = json.load(f)
-        ctx = Ctx(module, tier, seed, findings)
-        fn = module.check
-        if rec.get('phase_check'):
-            fn = getattr(module, rec['phase_check'])
+        fnname = rec.get('phase_check') or 'check'
+        mp = multiprocessing.get_context('fork')
+        a_, b_ = mp.Pipe(duplex=False)
+        def child(conn):
+            _watchdog(conn, 3 * CASE_LIMIT_S)
+            ctx = Ctx(module, tier, seed, findings)
+            try:
+                run_case(rec['case'], ctx, getattr(module, fnname))
+                conn.send({'ok': True, 'excluded': dict(ctx.excluded), 'harness': ctx.harness_errors})
+            except Violation as v:
+                conn.send({'violation': v.what, 'detail': jdump(v.detail)[:2000]})
+            os._exit(0)
+        pr = mp.Process(target=child, args=(b_,)); pr.start(); b_.close()
         try:
-            run_case(rec['case'], ctx, fn)
-        except Violation as v:
-            print('replay: %s %s' % (v.what, jdump(v.detail)[:2000]))
+            msg = a_.recv()
+        except EOFError:
+            msg = {'harness': [{'traceback': 'replay process died'}], 'ok': True, 'excluded': {}}
+        pr.join(5)
+        if 'hang' in msg:
+            print('replay: case does not finish within %ss' % msg['limit'])
+            if getattr(module, 'HANG_IS_VIOLATION', False):
+                print('VIOLATION property=%s replay=%s' % (prop, ns.replay)); return 1
+            return 2
+        if 'violation' in msg:
+            print('replay: %s %s' % (msg['violation'], msg['detail']))
             print('VIOLATION property=%s replay=%s' % (prop, ns.replay))
             return 1
-        if ctx.harness_errors:
-            print(ctx.harness_errors[0]['traceback'])
+        if msg.get('harness'):
+            print(msg['harness'][0]['traceback'])
             return 2
-        if sum(ctx.excluded.values()):
-            print('replay matches open known finding(s): %s' % dict(ctx.excluded))
+        if sum(msg['excluded'].values()):
+            print('replay matches open known finding(s): %s' % msg['excluded'])
         print('replay: property held')
         return 0
 
@@ -299,92 +411,64 @@ def main(module, argv=None):
              'harness_errors': [], 'inconclusive': [], 'phases': {}}
     exhaustive_all = True
 
-    # 1. open known findings: replay the stored probe; report while it still fails
-    ctx0 = Ctx(module, tier, seed, {})
-    for fid, e in sorted(findings.items()):
-        probe = e.get('probe')
-        if probe is None:
-            continue
-        fn = getattr(module, e.get('probe_check', 'check'))
-        try:
-            run_case(probe, ctx0, fn)
-            print('note: probe of open finding %s no longer fails' % fid)
-        except Violation as v:
-            pred = getattr(module, 'KNOWN', {}).get(fid)
-            if pred is not None and pred(probe, v):
-                print('KNOWN-FINDING: property=%s %s [%s]' % (prop, e['what'], fid))
-            else:
-                total['violations'].append({'case': probe, 'what': 'probe of %s fails differently: %s' % (fid, v.what), 'detail': v.detail})
-    total['harness_errors'] += ctx0.harness_errors
-
-    # 2. regression replays
-    ctxr = Ctx(module, tier, seed, findings)
+    hang_violation = getattr(module, 'HANG_IS_VIOLATION', False)
     nrep = 0
-    for path in sorted(glob.glob(os.path.join(VERIF, 'replays', prop, '*.json'))):
-        with open(path) as f:
-            rec = json.load(f)
-        fn = getattr(module, rec.get('phase_check') or 'check')
-        nrep += 1
-        try:
-            run_case(rec['case'], ctxr, fn)
-        except Violation as v:
-            total['violations'].append({'case': rec['case'], 'what': v.what, 'detail': v.detail, 'replay_of': path})
-    total['harness_errors'] += ctxr.harness_errors
-    total['excluded'].update(ctxr.excluded)
-    total['labels'].update(ctxr.labels)
-    total['nontriv'] |= ctxr.nontriv
-    total['evaluations'] += ctxr.evaluations
-
-    # 3. generated phases
     phases = module.phases(tier)
-    mpctx = multiprocessing.get_context('fork')
-    for pi, phase in enumerate(phases):
-        if ns.phase and ns.phase not in phase.name:
-            continue
-        if total['violations'] or total['harness_errors']:
+    plan = [(-1, None)] + [(pi, ph) for pi, ph in enumerate(phases) if not (ns.phase and ns.phase not in ph.name)]
+    for pi, phase in plan:
+        if total['violations'] or total['harness_errors'] or total['inconclusive']:
             break
-        if ns.scale != 1 and phase.kind == 'hypothesis':
-            pass
-        nsh = NPROC
-        if phase.kind == 'hypothesis' and phase.max_examples < 4 * NPROC:
-            nsh = max(1, phase.max_examples // 4)
-        if not phase.exhaustive:
-            exhaustive_all = False
+        if phase is None:
+            nsh = 1; name = 'regression'; kind = 'replay'
+        else:
+            nsh = NPROC; name = phase.name; kind = phase.kind
+            if phase.kind == 'hypothesis' and phase.max_examples < 4 * NPROC:
+                nsh = max(1, phase.max_examples // 4)
+            if not phase.exhaustive:
+                exhaustive_all = False
         tp = time.time()
-        import concurrent.futures
-        try:
-            with concurrent.futures.ProcessPoolExecutor(max_workers=min(NPROC, nsh), mp_context=mpctx) as pool:
-                results = list(pool.map(_run_shard, [(module.__name__, tier, seed, pi, k, nsh) for k in range(nsh)]))
-        except concurrent.futures.process.BrokenProcessPool:
-            results = [{'fatal': 'a worker process of phase %s died (killed / out of memory?)' % phase.name, 'shard': -1}]
+        results = run_shards([(module.__name__, tier, seed, pi, k, nsh) for k in range(nsh)])
         pev = 0
         for r in results:
+            if 'hang' in r:
+                fnname = r.get('fn') or 'check'
+                if confirm_hang(module.__name__, fnname, r['hang'], 3 * r['limit']):
+                    if hang_violation:
+                        total['violations'].append({'case': r['hang'], 'what': 'hang: case does not finish within %ss (alone, fresh process)' % (3 * r['limit']),
+                                                    'detail': {'phase': name}, 'phase_check': fnname})
+                    else:
+                        total['inconclusive'].append({'case': r['hang'], 'why': 'case does not finish within %ss; termination is not part of this property' % (3 * r['limit'])})
+                else:
+                    # slow under load but terminating: not a finding; that shard's counts are lost, which is recorded
+                    total['labels']['harness: shard stopped by a slow case that finished when re-run alone (its counts are lost)'] += 1
+                continue
             if 'fatal' in r:
                 total['harness_errors'].append({'case': None, 'traceback': r['fatal']})
                 continue
+            for line in r.get('known_lines', []):
+                print(line)
+            nrep += r.get('replays', 0)
             pev += r['evaluations']
             total['evaluations'] += r['evaluations']
             total['labels'].update(r['labels']); total['excluded'].update(r['excluded'])
             total['discarded'].update(r['discarded'])
             total['nontriv'] |= set(r['nontriv'])
-            for s in r['samples']:
+            for s_ in r['samples']:
                 if len(total['samples']) < 8:
-                    total['samples'].append(s)
+                    total['samples'].append(s_)
             total['violations'] += r['violations']
             total['harness_errors'] += r['harness_errors']
             total['inconclusive'] += r['inconclusive']
-        total['phases'][phase.name] = {'kind': phase.kind, 'evaluations': pev, 'wall_s': round(time.time() - tp, 1),
-                                       'exhaustive': bool(phase.exhaustive)}
-        print('phase %-28s %-10s evals=%-8d %.1fs' % (phase.name, phase.kind, pev, time.time() - tp))
+        total['phases'][name] = {'kind': kind, 'evaluations': pev, 'wall_s': round(time.time() - tp, 1),
+                                 'exhaustive': bool(phase is not None and phase.exhaustive)}
+        print('phase %-28s %-10s evals=%-8d %.1fs' % (name, kind, pev, time.time() - tp))
         sys.stdout.flush()
-        if total['violations'] or total['harness_errors']:
-            break
 
     wall = time.time() - t0
     rc = 0
     paths = []
     for v in total['violations'][:5]:
-        p = write_replay(prop, v['case'], v['what'], v['detail'])
+        p = write_replay(prop, v['case'], v['what'], v['detail'], phase_check=v.get('phase_check'))
         paths.append(p)
         print('violation: %s' % v['what'])
         print('  detail: %s' % jdump(v['detail'])[:3000])
